@@ -103,11 +103,26 @@ pub fn run_search(
     cache: &str,
     record: bool,
 ) -> Outcome {
+    run_search_clock(board, depth, nodes, movetime, None, stop_after_us, cache, record)
+}
+
+/// Same, with an optional game clock (both sides; the engine then thinks for clock/20 ms).
+#[allow(clippy::too_many_arguments)]
+pub fn run_search_clock(
+    board: &Board,
+    depth: u8,
+    nodes: Option<u64>,
+    movetime: Option<u128>,
+    clock: Option<u128>,
+    stop_after_us: Option<u64>,
+    cache: &str,
+    record: bool,
+) -> Outcome {
     crate::verif::CACHE_OFF.store(cache == "off", Ordering::Relaxed);
     if cache != "keep" {
         clear_tt();
     }
-    let limits = SearchLimits::new().nodes(nodes).movetime(movetime);
+    let limits = SearchLimits::new().nodes(nodes).movetime(movetime).white_time(clock).black_time(clock);
     let mut search = Search::new(board, Some(limits));
     let flag = search.running.clone();
     if record {
@@ -151,21 +166,23 @@ pub fn cmd_search_trace(args: &Args) {
         let nodes = c["budget"].as_u64();
         let movetime = c["movetime"].as_u64().map(u128::from);
         let stop_us = c["stop_us"].as_u64();
+        let clock = c["clock"].as_u64().map(u128::from);
         let cache = c["cache"].as_str().unwrap_or("fresh");
         let id = c["id"].as_u64().unwrap_or(i as u64);
         let Some(board) = build_board(fen, &hist) else {
             writeln!(w, "{{\"ev\":\"badcase\",\"id\":{id}}}").unwrap();
             continue;
         };
-        let o = run_search(&board, depth, nodes, movetime, stop_us, cache, true);
+        let o = run_search_clock(&board, depth, nodes, movetime, clock, stop_us, cache, true);
         let hist_json: Vec<String> = hist.iter().map(|m| format!("\"{m}\"")).collect();
         writeln!(
             w,
-            "{{\"ev\":\"search\",\"id\":{id},\"group\":{},\"fen\":\"{fen}\",\"hist\":[{}],\"depth\":{depth},\"budget\":{},\"movetime\":{},\"stop_us\":{},\"cache\":\"{cache}\",\"best\":{},\"score\":{},\"nodes\":{},\"panicked\":{},\"nev\":{}}}",
+            "{{\"ev\":\"search\",\"id\":{id},\"group\":{},\"fen\":\"{fen}\",\"hist\":[{}],\"depth\":{depth},\"budget\":{},\"movetime\":{},\"clock\":{},\"stop_us\":{},\"cache\":\"{cache}\",\"best\":{},\"score\":{},\"nodes\":{},\"panicked\":{},\"nev\":{}}}",
             c["group"].as_u64().unwrap_or(id),
             hist_json.join(","),
             nodes.map_or(-1i64, |n| n as i64),
             movetime.map_or(-1i64, |n| n as i64),
+            clock.map_or(-1i64, |n| n as i64),
             stop_us.map_or(-1i64, |n| n as i64),
             o.best.map_or("\"none\"".to_string(), |p| format!("\"{}\"", p.to_notation())),
             opt(o.score),
